@@ -103,7 +103,7 @@ func newBaseTrafficShapingController(r *Rule) *baseTrafficShapingController {
 			size = ConcurrencyMaxCount
 		}
 		metric := &ParamsMetric{
-			ConcurrencyCounter: cache.NewLRUCacheMap(size),
+			ConcurrencyCounter: cache.NewInFlightCounterCacheMap(size),
 		}
 		return newBaseTrafficShapingControllerWithMetric(r, metric)
 	default:
